@@ -11,7 +11,8 @@
 From Coq Require Import List NArith ZArith Bool Arith Permutation.
 From Verif Require Import Harness AbsCertG.
 From VerifModel Require Import C10 C11 C12.
-From VerifProof Require Import C10Proofs C11Proofs C12Proofs.
+From VerifProof Require Import C10Proofs C11Proofs C12Proofs C12Revocation.
+From VerifModel Require C15.
 Import ListNotations.
 Local Open Scope Z_scope.
 
@@ -121,6 +122,19 @@ Theorem C12_in_revocation_set_iff : forall g c t name onecrl crlset r,
    onecrl = Some true \/ exists ks p, crlset = Some ks /\ In p (r_parents r) /\ In (c_key p) ks).
 Proof. exact in_revocation_set_iff. Qed.
 Print Assumptions C12_in_revocation_set_iff.
+
+(* the same flag stated over the OneCRL records themselves (composition with the C15 model of mozilla.OneCRL:
+   [C15.parse_onecrl rs] = the set built from the records, [onecrl_lists] = OneCRL.Check(c) != nil): with no CRLSet the
+   flag is set exactly when some subject+key record names c's (raw subject, SPKI hash) — wherever it stands among records
+   of the same subject — or some issuer/serial record names c's (issuer, serial) *)
+Theorem C12_in_revocation_set_onecrl_records : forall g c t name rs oc subj kh issuer serial r,
+  C15.parse_onecrl rs = Some oc ->
+  verify g c t name (Some (onecrl_lists oc subj kh issuer serial)) None = Some r ->
+  (r_inrev r = true <->
+   exists es, C15.decode_records rs = Some es /\
+     (In (C15.OBlocked subj kh) es \/ exists e, Z.of_N e = serial /\ In (C15.OListed issuer e) es)).
+Proof. exact in_revocation_set_onecrl_records. Qed.
+Print Assumptions C12_in_revocation_set_onecrl_records.
 
 (* consistency: an expired certificate has no current chain *)
 Theorem C12_expired_no_current : forall ops c t name onecrl crlset r,
